@@ -93,3 +93,28 @@ def free_vars(*terms):
         if isinstance(t, z3.ExprRef):
             rec(t)
     return out
+
+
+def abstract_apps(formulas, prefix="F_"):
+    """Replace every application of an uninterpreted function whose name starts with `prefix` by a fresh constant (same application ->
+    same constant). Sound for proving validity (the abstraction is more general); lets nlsat handle formulas that mention oracle results."""
+    table = {}
+    seen = {}
+
+    def collect(t):
+        if t.get_id() in seen:
+            return
+        seen[t.get_id()] = True
+        if z3.is_app(t) and t.num_args() > 0 and t.decl().kind() == z3.Z3_OP_UNINTERPRETED and t.decl().name().startswith(prefix):
+            key = t.sexpr()
+            if key not in table:
+                table[key] = (t, z3.FreshConst(t.sort(), "abs"))
+            return
+        for c in t.children():
+            collect(c)
+
+    fs = [_b(f) for f in formulas if f is not True]
+    for f in fs:
+        collect(f)
+    pairs = list(table.values())
+    return [z3.substitute(f, *pairs) for f in fs] if pairs else fs
